@@ -100,6 +100,9 @@ class Module:
         return self is other
 
 
+_TREE_CACHE: Dict[tuple, ast.AST] = {}
+
+
 class Repo:
     def __init__(self, root: str = None, overlay: Optional[Dict[str, str]] = None):
         self.root = root or REPO_ROOT
@@ -128,13 +131,19 @@ class Repo:
                 else:
                     with open(path, encoding="utf-8") as fh:
                         src = fh.read()
-                try:
-                    tree = ast.parse(src, filename=rel)
-                except SyntaxError as e:
-                    raise AnalysisError(f"{rel}: does not parse: {e}")
-                if not os.environ.get("VERIF_NO_CANON"):
-                    from .canon import canonicalise
-                    self.canon_rewrites = getattr(self, "canon_rewrites", 0) + canonicalise(tree)
+                key = (rel, hash(src), bool(os.environ.get("VERIF_NO_CANON")))
+                cached = _TREE_CACHE.get(key)
+                if cached is not None:
+                    tree = cached  # parsed + canonical trees are read-only for the rules (substitution copies), so variants share them
+                else:
+                    try:
+                        tree = ast.parse(src, filename=rel)
+                    except SyntaxError as e:
+                        raise AnalysisError(f"{rel}: does not parse: {e}")
+                    if not os.environ.get("VERIF_NO_CANON"):
+                        from .canon import canonicalise
+                        self.canon_rewrites = getattr(self, "canon_rewrites", 0) + canonicalise(tree)
+                    _TREE_CACHE[key] = tree
                 modrel = os.path.relpath(path, base)[:-3].replace(os.sep, ".")
                 is_pkg = fn == "__init__.py"
                 if is_pkg:
